@@ -323,7 +323,30 @@ func runReadOnly(doc *gedcom.Document, o op) {
 	case "FilterOut":
 		roots := doc.Nodes()
 		if len(roots) > 0 {
-			_ = gedcom.Filter(roots[o.A%len(roots)], gedcom.NewDocument(), gedcom.OfficialTagFilter())
+			// every filter of the library, applied directly and through FilterFlags
+			root, target := roots[o.A%len(roots)], gedcom.NewDocument()
+			all := &gedcom.FilterFlags{NoEvents: true, NoResidences: true, NoPlaces: true, NoSources: true, NoMaps: true, NoChanges: true, NoObjects: true,
+				NoLabels: true, NoCensuses: true, NoEmptyDeaths: true, NoDuplicateNames: true, OnlyVitals: true, OnlyOfficial: true}
+			switch o.B % 10 {
+			case 0:
+				_ = gedcom.Filter(root, target, gedcom.OfficialTagFilter())
+			case 1:
+				_ = gedcom.Filter(root, target, gedcom.WhitelistTagFilter(gedcom.TagName, gedcom.TagBirth, gedcom.TagDate))
+			case 2:
+				_ = gedcom.Filter(root, target, gedcom.BlacklistTagFilter(gedcom.TagNote, gedcom.TagSex))
+			case 3:
+				_ = gedcom.Filter(root, target, gedcom.SimpleNameFilter(gedcom.NameFormatWritten))
+			case 4:
+				_ = gedcom.Filter(root, target, gedcom.OnlyVitalsTagFilter())
+			case 5:
+				_ = gedcom.Filter(root, target, gedcom.RemoveEmptyDeathTagFilter())
+			case 6, 7:
+				_ = gedcom.Filter(root, target, gedcom.RemoveDuplicateNamesFilter())
+			case 8:
+				_ = all.Filter(root, target)
+			default:
+				_ = (&gedcom.FilterFlags{NoDuplicateNames: true, NoEmptyDeaths: true}).Filter(root, target)
+			}
 		}
 	case "Publish":
 		opts := &html.PublishShowOptions{ShowIndividuals: true, ShowPlaces: true, ShowFamilies: true, ShowSurnames: true, ShowSources: true, ShowStatistics: true,
@@ -646,9 +669,16 @@ func genOp(t *rapid.T) op {
 
 func TestCheckHistories(t *testing.T) {
 	s := harness.NewSub("random-histories",
-		"operation lists of 1..25 steps over a random referentially closed family graph (<= 5 people, <= 3 families, decoded from text): 21 edit operations (AddNode/DeleteNode/SetNodes on arbitrary nodes, AddIndividual, AddFamily, AddFamilyWithHusbandAndWife, SetHusband/SetWife incl. nil, SetHusbandPointer/SetWifePointer, AddChild, Document.DeleteNode/AddNode, AddName/Add*Date/SetSex), 5 read operations that warm caches, 10 read-only operations (Warnings, String, Compare, SurroundingSimilarity, Similarity, CompareNodes+Sort, DeepCopy/Filter into another document, in-memory publish, queries); after every edit and read-only step all views (NodesWithTag for every node x 11 tags, Individuals, Families, NodeByPointer for every pointer ever seen, per individual Names/Sex/Births/Baptisms/Deaths/Burials/AllEvents/UniqueIdentifiers/Families/Spouses/Parents/Children/String, per family Husband/Wife/their individuals/Children/the individuals and parents of the children/String) are compared with a fresh decode of Document.String(); read-only steps must leave the text unchanged; non-trivial = an edit that follows a read of the views")
+		"operation lists of 1..25 steps over a random referentially closed family graph (<= 5 people, <= 3 families, decoded from text): 21 edit operations (AddNode/DeleteNode/SetNodes on arbitrary nodes, AddIndividual, AddFamily, AddFamilyWithHusbandAndWife, SetHusband/SetWife incl. nil, SetHusbandPointer/SetWifePointer, AddChild, Document.DeleteNode/AddNode, AddName/Add*Date/SetSex), 5 read operations that warm caches, 10 read-only operations (Warnings, String, Compare, SurroundingSimilarity, Similarity, CompareNodes+Sort, DeepCopy and every filter of the library - directly and through FilterFlags - into another document, in-memory publish, queries); a third of the start documents hold somebody with the same NAME twice; after every edit and read-only step all views (NodesWithTag for every node x 11 tags, Individuals, Families, NodeByPointer for every pointer ever seen, per individual Names/Sex/Births/Baptisms/Deaths/Burials/AllEvents/UniqueIdentifiers/Families/Spouses/Parents/Children/String, per family Husband/Wife/their individuals/Children/the individuals and parents of the children/String) are compared with a fresh decode of Document.String(); read-only steps must leave the text unchanged; non-trivial = an edit that follows a read of the views")
 	s.Rapid(t, harness.Share(harness.Pick(12000, 300000)), 130, func(rt *rapid.T) {
 		h := history{Start: gen.Graph(gen.GraphOpts{MaxPeople: 5, MaxFamilies: 3, UIDs: true, Sources: true}).Draw(rt, "start")}
+		if len(h.Start.People) > 0 && rapid.IntRange(0, 2).Draw(rt, "duplicateName") == 0 {
+			// somebody has the same NAME twice (and lines after it): what the duplicate-name filter looks for
+			p := h.Start.People[rapid.IntRange(0, len(h.Start.People)-1).Draw(rt, "dupOf")]
+			if len(p.Names) > 0 {
+				p.Names = append([]gen.Str{p.Names[0]}, p.Names...)
+			}
+		}
 		n := rapid.IntRange(1, 25).Draw(rt, "nops")
 		for i := 0; i < n; i++ {
 			h.Ops = append(h.Ops, genOp(rt))
